@@ -188,6 +188,7 @@ def run(sc, choices=None):
         cfg["max_calls"] = len(frames) + 6
         if sc.get("prior"):
             cfg["prior"] = dict(sc["prior"])  # the object was used before: an earlier connection was lost mid-frame / mid-message
+        cfg["no_multithread"] = bool(sc.get("no_multithread"))
         out = run_recv(int(sc.get("seed", 1)), stream, cfg, res)
         from ..harness import obs_value
         from ..recvdrv import obs_matches
@@ -246,6 +247,8 @@ def gen(rng):
     pr = _gen_prior(rng)
     if pr:
         sc["prior"] = pr
+    if rng.random() < 0.1:
+        sc["no_multithread"] = True  # WebSocket(enable_multithread=False): the no-op lock stand-in
     return sc
 
 
